@@ -97,25 +97,29 @@ if (not proof_ok) and unexpected:
 
 # ------------------------------------------------------------------ 4: TSan harness
 def build_tsan():
-    """objects of the four library TUs and the harness, compiled in parallel with -fsanitize=thread,
+    return build_harness("c18_threads", ["mir.c", "mir-gen.c", "c2mir/c2mir.c", "mir2c/mir2c.c"], ["-fsanitize=thread"])
+
+
+def build_harness(name, tus, san):
+    """objects of the library TUs and the harness, compiled in parallel (with the sanitizer flags `san`),
     cached by content hash of /repo's sources + harness + flags (same rule as Check.cc)."""
-    flags = ["-O1", "-g", "-fsanitize=thread", "-I" + REPO, "-I" + os.path.join(VERIF, "harness"), "-DMIR_VERIF"]
-    hsrc = os.path.join(VERIF, "harness", "c18_threads.c")
+    flags = ["-O1", "-g", *san, "-I" + REPO, "-I" + os.path.join(VERIF, "harness"), "-DMIR_VERIF"]
+    hsrc = os.path.join(VERIF, "harness", name + ".c")
     key = file_hash(repo_sources() + [hsrc], " ".join(flags))
     d = os.path.join(CACHE, "bin")
     os.makedirs(d, exist_ok=True)
-    exe = os.path.join(d, f"c18_threads-{key}")
+    exe = os.path.join(d, f"{name}-{key}")
     if os.path.exists(exe):
         return exe, ""
-    stale = sorted((os.path.join(d, f) for f in os.listdir(d) if f.startswith("c18_threads-")), key=os.path.getmtime)
+    stale = sorted((os.path.join(d, f) for f in os.listdir(d) if f.startswith(name + "-")), key=os.path.getmtime)
     for f in stale[:-3]:       # keep a few: mutant / fix trees alternate with the clean tree
         try:
             os.remove(f)
         except OSError:
             pass
-    od = os.path.join(CACHE, "c18obj-" + key)
+    od = os.path.join(CACHE, "c18obj-" + name + key)
     os.makedirs(od, exist_ok=True)
-    srcs = [hsrc] + [os.path.join(REPO, f) for f in ["mir.c", "mir-gen.c", "c2mir/c2mir.c", "mir2c/mir2c.c"]]
+    srcs = [hsrc] + [os.path.join(REPO, f) for f in tus]
     t = time.time()
 
     def comp(s):
@@ -125,14 +129,14 @@ def build_tsan():
         res = list(ex.map(comp, srcs))
     log = "".join(out for _, (rc, out) in res if rc != 0)
     if log:
-        ck.log(f"cc c18_threads failed\n{log[-3000:]}")
+        ck.log(f"cc {name} failed\n{log[-3000:]}")
         return None, log
-    rc, out = sh(["gcc", "-fsanitize=thread", *[o for o, _ in res], "-o", exe + ".tmp", "-lm", "-ldl", "-lpthread"])
+    rc, out = sh(["gcc", *san, *[o for o, _ in res], "-o", exe + ".tmp", "-lm", "-ldl", "-lpthread"])
     subprocess.run(["rm", "-rf", od])
     if rc != 0:
         return None, out
     os.replace(exe + ".tmp", exe)
-    ck.log(f"cc c18_threads (tsan): {time.time() - t:.1f}s")
+    ck.log(f"cc {name} ({' '.join(san) or 'plain'}): {time.time() - t:.1f}s")
     return exe, ""
 
 
@@ -434,6 +438,64 @@ except Exception as e:
 if runs and exe is not None and not ck.replay and (pg["boundary_patches"] == 0 or pg["requests"] == 0):
     ck.broken_ties.append({"kind": "coverage", "name": "no boundary patch / protection request was observed", "counts": pg})
 
+# ------------------------------------------------------------------ 4c: c2mir fatal-error exits under forced schedules
+# harness/c18_c2m_fatal.c (no sanitizer: the shared state, if any, is written inside libc's setjmp): threads
+# enter c2mir_compile in a fixed order, compiles that hit the FATAL path (missing include) leave while the
+# valid ones are suspended in their getc callback; every call must return in its own frame with its own
+# verdict and valid modules must compute their own value.
+fat = {"schedules": 0, "with_fatal_not_last": 0, "threads": [], "failed": 0}
+fexe, fcclog = build_harness("c18_c2m_fatal", ["mir.c", "mir-gen.c", "c2mir/c2mir.c"], [])
+if fexe is None:
+    ck.broken_ties.append({"kind": "harness-compile", "name": "c18_c2m_fatal", "log": fcclog[-1500:]})
+else:
+    scheds = []
+    if ck.replay:
+        c = json.load(open(ck.replay))
+        h = c.get("c2m_fatal") or (c.get("input") or {}).get("c2m_fatal")
+        if h:
+            scheds.append([str(x) for x in h])
+    else:
+        if os.path.isdir(os.path.join(VERIF, "corpus", PID)):
+            for f in sorted(os.listdir(os.path.join(VERIF, "corpus", PID))):
+                c = json.load(open(os.path.join(VERIF, "corpus", PID, f))) if f.endswith(".json") else {}
+                if c.get("c2m_fatal"):
+                    scheds.append([str(x) for x in c["c2m_fatal"]])
+        scheds += [["2", "1", "FO"], ["2", "1", "OF"], ["3", "1", "FOf"], ["3", "1", "OFO"], ["4", "1", "fOOF"], ["2", "1", "Ff"]]
+        for k in range(8 if ck.tier == "quick" else 120):
+            scheds.append([str(2 + ck.rng.below(5)), str(1 + ck.rng.below(10**6))])
+    fat_violation = False
+    for a in scheds:
+        try:
+            p = subprocess.run([fexe, *a], stdout=subprocess.PIPE, stderr=subprocess.PIPE, text=True, errors="replace", timeout=120)
+            rc, out = p.returncode, p.stdout
+        except subprocess.TimeoutExpired as e:
+            rc, out = -999, (e.stdout or "") if isinstance(e.stdout, str) else ""
+        lines = out.strip().split("\n")
+        sched = next((l for l in lines if l.startswith("SCHED")), "")
+        roles = (re.search(r"roles=(\S+)", sched) or [None, ""])[1]
+        fat["schedules"] += 1
+        fat["threads"].append(len(roles))
+        if any(r != "O" for r in roles[:-1]):      # a fatal compile enters before another compile
+            fat["with_fatal_not_last"] += 1
+        failed = [l for l in lines if l.startswith("FAIL") or "WRONG" in l]
+        done = next((l for l in lines if l.startswith("DONE")), None)
+        if failed or done is None or done != "DONE fails=0":
+            fat["failed"] += 1
+            if not fat_violation:
+                fat_violation = True
+                cmd = " ".join([fexe, a[0], a[1], roles or (a[2] if len(a) > 2 else "")])
+                ck.violation({"stage": "tie", "theorem_or_correspondence": "c2mir fatal exit stays in its own context (forced schedule)",
+                              "input": {"c2m_fatal": [a[0], a[1], roles or (a[2] if len(a) > 2 else "")], "schedule": sched,
+                                        "sources": "role F: `#include \"c18_no_such_file_<t>.h\"`, f: `#include <...>`, O: valid program `long f(long)`"},
+                              "model_output": "every c2mir_compile call returns in the frame of the thread that made it: fatal -> 0, valid -> 1 and f(7) = own value",
+                              "impl_output": failed or [f"harness ended without DONE (rc={rc})"] + lines[-3:], "how_to_rerun": cmd},
+                             what="c2mir under threads: " + (failed[0] if failed else f"run did not complete (rc={rc})") + "  [" + sched[:60] + "]",
+                             signature="C18:c2mir-fatal-cross-context")
+        elif len(ck.cov["samples"]) < 7 and fat["schedules"] == 1:
+            ck.sample({"c2m_fatal": a, "schedule": sched, "results": [l for l in lines if l.startswith("RES")]})
+    if fat["with_fatal_not_last"] == 0 and not ck.replay:
+        ck.broken_ties.append({"kind": "coverage", "name": "no schedule with a fatal compile entering before another compile", "counts": fat})
+
 # ------------------------------------------------------------------ 5: model correspondence
 PHASES = ["MIR_init", "c2mir_init", "c2mir_compile", "c2mir_finish", "MIR_scan_string", "MIR_output", "MIR_write",
           "MIR_module2c", "MIR_load_module", "MIR_gen_init", "MIR_link", "run", "code_patch", "MIR_gen_finish", "MIR_finish"]
@@ -552,7 +614,7 @@ if model_diffs:
     ck.broken_ties.append({"kind": "correspondence", "name": "footprint model vs harness/theorem", "first_diff": model_diffs[0]})
 
 # ------------------------------------------------------------------ evidence
-ck.cov["evaluations"] = n_compared + n_model + pg["contexts"]
+ck.cov["evaluations"] = n_compared + n_model + pg["contexts"] + fat["schedules"]
 ck.cov["distinct_nontrivial"] = len(combos)
 ck.cov["rule"] = ("evaluation = one thread-iteration workload (context init, c2mir compile, scan, output, write, load, link, run, "
                   "finish) executed concurrently with other threads and compared with its sequential run, plus model traces "
@@ -571,7 +633,7 @@ ck.cov.setdefault("distribution", {}).update({
     "inventory_status": {f"{k[0]}:{k[1]}": v for k, v in status.items()},
     "dynamically_confirmed": dyn_confirmed,
     "model_hyp_flags": sorted(hyp_bad_objects),
-    "model_traces": n_model, "model_harness_agree": n_model_ok, "code_pages": pg,
+    "model_traces": n_model, "model_harness_agree": n_model_ok, "code_pages": pg, "c2mir_fatal_schedules": fat,
     "interfaces_hit": sorted({c[1] for c in combos if c[1] is not None}),
     "kinds_hit": sorted({c[0] for c in combos if c[0] is not None}),
 })
